@@ -24,6 +24,7 @@ func init() {
 type c10Op struct {
 	Kind string `json:"op"` // put, delete, list, wait
 	A    int    `json:"artifact"`
+	Tag  bool   `json:"by_tag,omitempty"` // put: pushed as repo:tag instead of by digest
 }
 
 var c10Types = []string{"application/vnd.example.sbom", "application/vnd.example.sig", "application/vnd.example.att"}
@@ -61,8 +62,22 @@ func runC10(e *core.Env) {
 		if e.Choose("gen", 4, "ghost") == 3 {
 			s = ghost
 		}
-		arts = append(arts, g.Artifact(s, c10Types[e.Choose("gen", 3, "type")]))
+		// annotations: some, an empty object, or none at all
+		g.ArtifactAnnotMode = []int{0, 0, 1, 2}[e.Choose("gen", 4, "annot")]
+		a := g.Artifact(s, c10Types[e.Choose("gen", 3, "type")])
+		for _, o := range arts {
+			if o.Digest == a.Digest {
+				// (without a distinguishing annotation two artifacts over an empty blob are the same manifest)
+				g.ArtifactAnnotMode = 0
+				a = g.Artifact(s, a.ArtType)
+			}
+		}
+		if g.ArtifactAnnotMode != 0 {
+			e.Probe("artifact-without-annotations")
+		}
+		arts = append(arts, a)
 	}
+	g.ArtifactAnnotMode = 0
 	arts = append(arts, g.Artifact(arts[0], c10Types[e.Choose("gen", 3, "type")])) // referrer of a referrer
 	subjects := []string{subj0.Digest, ghost.Digest, arts[0].Digest}
 	live := map[string]bool{} // digest -> stored
@@ -142,7 +157,12 @@ func runC10(e *core.Env) {
 		a := arts[op.A]
 		switch op.Kind {
 		case "put":
-			err := pushNode(ctx, rc, base, a, "", false)
+			tag := ""
+			if op.Tag {
+				tag = fmt.Sprintf("art-%d", op.A)
+				e.Probe("referrer-pushed-by-tag")
+			}
+			err := pushNode(ctx, rc, base, a, tag, false)
 			if err == nil {
 				live[a.Digest] = true
 			}
@@ -175,7 +195,7 @@ func runC10(e *core.Env) {
 	if !concurrent {
 		var ops []c10Op
 		for i, n := 0, 3+e.Choose("gen", 14, "nops"); i < n; i++ {
-			ops = append(ops, c10Op{Kind: kinds[e.Choose("gen", len(kinds), "kind")], A: e.Choose("gen", len(arts), "a")})
+			ops = append(ops, c10Op{Kind: kinds[e.Choose("gen", len(kinds), "kind")], A: e.Choose("gen", len(arts), "a"), Tag: e.Choose("gen", 3, "bytag") == 2})
 		}
 		sample["history"] = ops
 		e.SetCase(fmt.Sprintf("%v|%v|%s", sample, ops, subj0.Digest), true, sample)
@@ -242,7 +262,7 @@ func runC10(e *core.Env) {
 		if pre[i] {
 			tasks[t].Ops = append(tasks[t].Ops, c10Op{Kind: "delete", A: i})
 		} else {
-			tasks[t].Ops = append(tasks[t].Ops, c10Op{Kind: "put", A: i})
+			tasks[t].Ops = append(tasks[t].Ops, c10Op{Kind: "put", A: i, Tag: e.Choose("gen", 3, "bytag") == 2})
 		}
 		if e.Choose("gen", 3, "readalso") == 1 {
 			tasks[t].Ops = append(tasks[t].Ops, c10Op{Kind: "list"})
